@@ -59,6 +59,15 @@ func (s *Sim) opWeights() weights {
 	if s.faultOn("reload_valid") || s.faultOn("reload_invalid") {
 		w["reload"] = 5
 	}
+	if (s.faultOn("reload_valid") || s.faultOn("reload_invalid")) && s.post != nil {
+		// a queue is draining: the cleaner decides about it
+		for _, q := range s.post.Queues {
+			if q.Status == "Draining" {
+				w["tick"] += 6
+				break
+			}
+		}
+	}
 	if s.faultOn("malformed") {
 		w["malformed"] = 8
 	}
@@ -534,6 +543,13 @@ func (s *Sim) genOpOf(kind string) (Op, bool) {
 			s.faults["rm_placed"]++
 			return Op{Kind: "ask", Asks: []AskArgs{{Key: fmt.Sprintf("%s-rm%d", app, s.nAsk), App: app, Res: s.genAskRes(), Node: pick(r, ids), PreemptSelf: true}}, Fault: "rm_placed"}, true
 		case "tick":
+			if s.post != nil {
+				for _, path := range sortedKeys(s.post.Queues) {
+					if s.post.Queues[path].Status == "Draining" && r.Bool(0.7) {
+						return Op{Kind: "tick", Type: "cleanup"}, true
+					}
+				}
+			}
 			return Op{Kind: "tick", Type: pick(r, []string{"quota", "inspect", "cleanup", "cleanup"})}, true
 		case "dup":
 			// resend a recent request
